@@ -14,25 +14,25 @@ Qed.
 
 (* clean means panic-free *)
 Theorem whole_sound prog afuel ctr pk r st :
-  analyze_program afuel ctr pk prog = Some r -> r_gsafe r = true -> r_clocal r = true ->
+  analyze_program afuel ctr pk prog = Some r -> r_gsafe r = true -> r_clocal r = true -> r_nodel r = true ->
   wf_program prog = true -> ctr_arity ctr 0 (p_funcs prog) = true -> impls_plain prog ctr = true ->
   (forall g fd, ctr g = true -> nth_error (p_funcs prog) g = Some fd -> contract_true prog fd) ->
   pkg_run [] [] (all_triggers r) st -> conflicts st = [] ->
   forall fuel oracle, panic_of (run_program prog fuel oracle) = None.
 Proof.
-  intros Han Hg Hl Hwf Har Him Hct Hr Hc. eapply flow_sound; eauto. eapply engine_clean_no_flow; eauto.
+  intros Han Hg Hl Hnd Hwf Har Him Hct Hr Hc. eapply flow_sound; eauto. eapply engine_clean_no_flow; eauto.
 Qed.
 
 (* some execution dereferences nil => at least one conflict is reported *)
 Theorem whole_reported prog afuel ctr pk r st fuel oracle d :
-  analyze_program afuel ctr pk prog = Some r -> r_gsafe r = true -> r_clocal r = true ->
+  analyze_program afuel ctr pk prog = Some r -> r_gsafe r = true -> r_clocal r = true -> r_nodel r = true ->
   wf_program prog = true -> ctr_arity ctr 0 (p_funcs prog) = true -> impls_plain prog ctr = true ->
   (forall g fd, ctr g = true -> nth_error (p_funcs prog) g = Some fd -> contract_true prog fd) ->
   pkg_run [] [] (all_triggers r) st ->
   panic_of (run_program prog fuel oracle) = Some d -> conflicts st <> [].
 Proof.
-  intros Han Hg Hl Hwf Har Him Hct Hr Hp Hc.
-  rewrite (whole_sound _ _ _ _ _ _ Han Hg Hl Hwf Har Him Hct Hr Hc fuel oracle) in Hp. discriminate.
+  intros Han Hg Hl Hnd Hwf Har Him Hct Hr Hp Hc.
+  rewrite (whole_sound _ _ _ _ _ _ Han Hg Hl Hnd Hwf Har Him Hct Hr Hc fuel oracle) in Hp. discriminate.
 Qed.
 
 (* every sink of the emitted constraints is a dereference whose producers can fire: if those all sit at one
@@ -79,7 +79,7 @@ Definition ex_ok : program :=
 
 Example ex_ok_premises :
   exists r res,
-    analyze_program 8 no_ctr one_pkg ex_ok = Some r /\ r_gsafe r = true /\ r_clocal r = true /\
+    analyze_program 8 no_ctr one_pkg ex_ok = Some r /\ r_gsafe r = true /\ r_clocal r = true /\ r_nodel r = true /\
     wf_program ex_ok = true /\ ctr_arity no_ctr 0 (p_funcs ex_ok) = true /\
     analyze_pkg all_exported 200 [] [] (all_triggers r) = Finished res /\ r_conflicts res = [] /\
     guarded ex_ok = true.
@@ -155,13 +155,13 @@ Qed.
 
 (* clean means panic-free when the contracts are those the (intraprocedural) inference accepts *)
 Theorem whole_sound_inferred prog afuel hf ctr pk r st :
-  analyze_program afuel ctr pk prog = Some r -> r_gsafe r = true -> r_clocal r = true ->
+  analyze_program afuel ctr pk prog = Some r -> r_gsafe r = true -> r_clocal r = true -> r_nodel r = true ->
   wf_program prog = true -> impls_plain prog ctr = true ->
   (forall g fd, ctr g = true -> nth_error (p_funcs prog) g = Some fd -> infer_sem hf fd = true) ->
   pkg_run [] [] (all_triggers r) st -> conflicts st = [] ->
   forall fuel oracle, panic_of (run_program prog fuel oracle) = None.
 Proof.
-  intros Han Hg Hl Hwf Him Hinf Hr Hc. eapply whole_sound; eauto.
+  intros Han Hg Hl Hnd Hwf Him Hinf Hr Hc. eapply whole_sound; eauto.
   - apply (inferred_arity hf). intros i fd Hn Hci. eapply Hinf; eauto.
   - intros g fd Hcg Hn. eapply infer_sem_sound. eauto.
 Qed.
@@ -187,9 +187,9 @@ Proof. vm_compute. repeat split; reflexivity. Qed.
 
 (* the loop body really returns nil for a non-nil argument *)
 Example loop_overwrite_not_a_contract :
-  exists fuel oracle, exec {| p_funcs := [fd_loop_overwrite]; p_ginit := [true]; p_impls := [] |} fuel (f_body fd_loop_overwrite)
-                           (bind_params 0 [VPtr None]) oracle = OReturn VNil [(VL 0, VNil); (VL 0, VPtr None)] [].
-Proof. exists 10, [true]. reflexivity. Qed.
+  exists fuel oracle s', exec {| p_funcs := [fd_loop_overwrite]; p_ginit := [true]; p_impls := [] |} fuel (f_body fd_loop_overwrite)
+                              (bind_params 0 [VPtr None]) oracle = OReturn VNil s' [].
+Proof. exists 10, [true]. eexists. reflexivity. Qed.
 
 
 (* ---------- interfaces (C09) ---------- *)
@@ -220,7 +220,7 @@ Definition ex_iface_ok : program :=
      p_ginit := []; p_impls := [[1]] |}.
 
 Example iface_ok_premises :
-  exists r res, analyze_program 8 no_ctr one_pkg ex_iface_ok = Some r /\ r_gsafe r = true /\ r_clocal r = true /\
+  exists r res, analyze_program 8 no_ctr one_pkg ex_iface_ok = Some r /\ r_gsafe r = true /\ r_clocal r = true /\ r_nodel r = true /\
     wf_program ex_iface_ok = true /\ impls_plain ex_iface_ok no_ctr = true /\
     analyze_pkg all_exported 200 [] [] (all_triggers r) = Finished res /\ r_conflicts res = [].
 Proof. ex_solve. Qed.
@@ -232,3 +232,69 @@ Example iface_affiliation_needed :
     analyze_pkg all_exported 200 [] [] (map etrig (r_decl r ++ concat (r_funcs r) ++ concat (r_dups r))) = Finished res /\
     r_conflicts res = [].
 Proof. ex_solve. Qed.
+
+
+(* ---------- the (value, error) convention (C08) ---------- *)
+(* F1: if opaque { return nil, fresh error }; return new, nil     (respects the convention)
+   F2: if opaque { return nil, nil }; return new, nil             (violates it)
+   F0: x, e = F1(); if e != nil { return nil }; x.V               checked: clean
+       y, e2 = F1(); y.V                                          unchecked: reported ("lacking guarding")
+       z, e3 = F2(); if e3 != nil { return nil }; z.V             checked, but the callee returns nil with a nil error: reported
+       w, e4 = F1(); e4 = nil; if e4 != nil { return nil }; w.V   error overwritten before the check: reported *)
+Definition fd_err_ok : func :=
+  {| f_nparams := 0; f_body := SSeq (SIf COpaque (SReturn2 ANil ANew) SSkip) (SReturn2 ANew ANil) |}.
+Definition fd_err_bad : func :=
+  {| f_nparams := 0; f_body := SSeq (SIf COpaque (SReturn2 ANil ANil) SSkip) (SReturn2 ANew ANil) |}.
+Definition chk (x xe : nat) (d : nat) : stmt :=
+  SSeq (SIf (CNonNil (VL xe)) (SReturn ANil) SSkip) (SDeref d (VL x)).
+Definition mk_err_prog (body : stmt) : program :=
+  {| p_funcs := [ {| f_nparams := 0; f_body := body |}; fd_err_ok; fd_err_bad ]; p_ginit := []; p_impls := [] |}.
+Definition ex_err_checked := mk_err_prog (SSeq (SCall2 1 (Some (VL 0)) (Some (VL 50)) 1 []) (chk 0 50 1)).
+Definition ex_err_unchecked := mk_err_prog (SSeq (SCall2 1 (Some (VL 0)) (Some (VL 50)) 1 []) (SDeref 1 (VL 0))).
+Definition ex_err_callee_bad := mk_err_prog (SSeq (SCall2 1 (Some (VL 0)) (Some (VL 50)) 2 []) (chk 0 50 1)).
+Definition ex_err_overwritten :=
+  mk_err_prog (SSeq (SCall2 1 (Some (VL 0)) (Some (VL 50)) 1 []) (SSeq (SAssign (VL 50) ANil) (chk 0 50 1))).
+
+Definition nconf (p : program) : option nat :=
+  match analyze_program 8 no_ctr one_pkg p with
+  | Some r => match analyze_pkg all_exported 200 [] [] (all_triggers r) with
+              | Finished res => Some (length (r_conflicts res))
+              | _ => None
+              end
+  | None => None
+  end.
+
+Example err_convention_both_ends :
+  nconf ex_err_checked = Some 0 /\ nconf ex_err_unchecked = Some 1 /\
+  nconf ex_err_callee_bad = Some 1 /\ nconf ex_err_overwritten = Some 1.
+Proof. vm_compute. repeat split; reflexivity. Qed.
+
+Example err_checked_premises :
+  exists r res, analyze_program 8 no_ctr one_pkg ex_err_checked = Some r /\ r_gsafe r = true /\ r_clocal r = true /\
+    r_nodel r = true /\ wf_program ex_err_checked = true /\
+    analyze_pkg all_exported 200 [] [] (all_triggers r) = Finished res /\ r_conflicts res = [].
+Proof. ex_solve. Qed.
+
+(* the runs of the three reported programs that panic *)
+Example err_reported_programs_panic :
+  panic_of (run_program ex_err_unchecked 20 [true]) = Some 1 /\
+  panic_of (run_program ex_err_callee_bad 20 [true]) = Some 1 /\
+  panic_of (run_program ex_err_overwritten 20 [true]) = Some 1.
+Proof. vm_compute. repeat split; reflexivity. Qed.
+
+(* an unchecked use at a dereference is a flow whatever the callee does *)
+Lemma unchecked_is_flow ALLs t :
+  In t ALLs -> s_ctrl t = None -> kind_of (s_prod t) = KAlways -> s_cons t = CAlways ->
+  has_flow (csys_of [] [] (map etrig ALLs)).
+Proof.
+  intros Ht Hc Hk Hs. left. exists (s_id t). left. unfold csys_of. cbn. apply in_flat_map. exists (etrig t). split.
+  - apply filter_In. split; [now apply in_map|]. unfold controlled, etrig. cbn. now rewrite Hc.
+  - unfold atoms_of_trigger, etrig. cbn. rewrite Hk, Hs. left. reflexivity.
+Qed.
+
+(* the triggers of the two kinds of return, and of a checked / unchecked use *)
+Lemma return2_triggers ng ctr sp f fuel e a :
+  (exists r, analyze ng ctr sp f fuel (SReturn2 a ANil) e = Some r /\
+             a_trig r = map (fun p => mk_trigger 0 p (CSite (SResult f))) (uprods e a)) /\
+  (exists r, analyze ng ctr sp f fuel (SReturn2 a ANew) e = Some r /\ a_trig r = []).
+Proof. split; eexists; split; reflexivity. Qed.
